@@ -273,6 +273,9 @@ class Circuit:
                     target_mode += 1
             if 0 <= target_mode < circuit.n_modes:
                 spec = circuit._add_empty_mode(spec, target_mode)
+        # Check size again now that existing internal modes are included
+        if mode + circuit.n_modes - n_heralds > self.n_modes:
+            raise ModeRangeError("Circuit to add is outside of mode range")
         # Then add new modes for heralds from circuit
         for m in sorted(circuit.heralds["input"]):
             self.__circuit_spec = self._add_empty_mode(
